@@ -92,6 +92,18 @@ def oracle_hostile(ctx, ops, impl):
                     ctx.violation("undocumented-error:" + c, "reply %s is not one of the documented errors" % c, o + "\n")
                 if not c.startswith("E_") and c not in ("OK", "IDENTIFY-RESPONSE"):
                     ctx.violation("unknown-reply", "unexpected reply %r" % txt[:60], o + "\n")
+            if w[1] == "stream" and len(w) > 3:
+                raw = e4.unhex(w[3])
+                want = None if raw[:4] == b"  V1" else ([] if len(raw) < 4 else ["E_BAD_PROTOCOL"])
+                if want is not None and codes != want:
+                    ctx.violation("bad-magic-accepted", "a connection that opened with %r (not the magic \"  V1\") was answered %s "
+                                  "instead of %s" % (raw[:4], codes[:4], want), "\n".join([ops[0], o]) + "\n")
+            exp = [x.split("=", 1)[1] for x in w if x.startswith("expect=")]
+            if exp and codes[-1:] != exp:
+                ctx.violation("documented-error-missing:" + exp[0],
+                              "after a valid IDENTIFY the last command of the stream (REGISTER/UNREGISTER with an invalid name, or a "
+                              "second IDENTIFY) must be refused with %s as the last reply; the replies were %s" % (exp[0], codes[-4:]),
+                              "\n".join([ops[0], o]) + "\n")
             if "noident=1" in w and "IDENTIFY-RESPONSE" in codes:
                 ctx.violation("identify-trailing-garbage-accepted",
                               "an IDENTIFY whose declared body has non-white-space bytes after the JSON document was "
